@@ -59,6 +59,18 @@ def schedule_search(ctx, prop, bad, lean_failed):
 def run(ctx):
     facts, res, bad = schedule_part(ctx, "C09", PROGRAMS_QUICK)
     histcheck.run(ctx, MODULE, WEIGHTS, TAGS, lean_extra=EXTRA)
+    # "... and the allocation is released": over every payload shape (size not a multiple of the word, over-aligned, ZST)
+    from vlib import layout_corr
+    oku, stats, failures = layout_corr.unwrap_pass(ctx)
+    ctx.oblige("corr:unwrap-over-shape-matrix", oku, "%d failing" % len(failures))
+    ctx.coverage["unwrap_shape_matrix"] = stats
+    ctx.coverage["evaluations"] = ctx.coverage.get("evaluations", 0) + stats["cases"]
+    if not oku:
+        body = "try_unwrap / into_inner / try_unique over the shape matrix: implementation vs layout model / property:\n\n" + "\n\n".join(f["text"] for f in failures[:4])
+        if any(f.get("found_input") for f in failures):
+            ctx.violation("shape", body, True)
+        else:
+            ctx.defer_nfi(body)
     if bad and not any(v["kind"] == "miri" for v in ctx.violations) and not getattr(ctx, "sched_handled", False):
         schedule_search(ctx, "C09", bad, [])
 
